@@ -102,7 +102,7 @@ c09_valve_challenge!(c09_valve_challenge_rules_1, 0x56, 1);
 #[cfg(kani)]
 fn gs3_challenge<const DIGITS: usize>(negative: bool) {
     let addr = any_addr_v4();
-    let mut text = [0u8; 16];
+    let mut text = [0u8; 20];
     let mut n = 0;
     text[n] = 0x09;
     text[n + 1] = 0;
